@@ -124,6 +124,20 @@ CHECKS['C06'] = dict(
          'labels and string-valued link attributes that happen to be valid paths are outside the generated domain.',
     ref='§5 C06')
 
+CHECKS['C08'] = dict(
+    technique='Lean 4 theorems (tile/repeat index algebra, mixed-radix bijection) + differential correspondence, exhaustive small scope in thorough',
+    text=('Theorems (Usid/Properties/C08.lean) for any number of dimensions, any sizes >= 1 and any values: entry (d,c) of the '
+          'built indices matrix is c / prod(len_e, e<d) % len_d (first supplied dimension fastest) and the values matrix '
+          'holds value_d[index_d]; the column -> digit-tuple map is a bijection onto all index combinations (each exactly '
+          'once); position matrices are transposes; write_ind_val_dsets under BOTH ordering flags stores the dimensions '
+          'slowest-first with the caller\'s fastest last and row j carries label, unit, indices and values of the same '
+          'dimension; make_indices_matrix gives the same rows for sizes >= 2 (or [1]) and refuses every other list. '
+          'Correspondence: the real builders and writer vs the model and vs direct enumeration; thorough enumerates ALL '
+          'size tuples up to 4 dimensions x sizes 1..4.'),
+    note=COMMON_NOTE + 'dtypes (uint32/float32) are checked by the harness, values are dyadic so float32 is exact; the '
+         'INCOMPLETE/DEPENDENT dimension modes are not modelled.',
+    ref='§5 C08')
+
 REASON_PENDING = 'check not built yet in this round (planned: Lean model + theorems + correspondence, see DESIGN.md §5)'
 
 
